@@ -498,6 +498,13 @@ def c08_idle(spec, obs, sc=0, cal=None):
                 if alone and rec["start"][sc] > slot_start(obs, s1) + timedelta(seconds=1):
                     v.append(("late-start", f"{fid}: bound {bound}, first work in slot {slot_start(obs, s1)} which it has to itself, "
                                             f"but it starts only at {rec['start'][sc]}"))
+            # the bound's own slot: when the bound lies inside slot b, that slot is working for every allocated resource and
+            # nothing at all is booked in it in the final ledger (bookings only shrink, so it was empty when the task was
+            # placed), the task starts in it - it does not wait for the next slot boundary
+            if slot_start(obs, b) != bound and s1 > b and all(cal.whole_slot_working(r, b) for r in alloc) and \
+                    all(not led.get(short2full[r], {}).get(b) for r in alloc):
+                v.append(("idle-bound-slot", f"{fid}: bound {bound} lies inside the working, entirely unbooked slot {slot_start(obs, b)} of {alloc}, "
+                                             f"but the task first works in slot {slot_start(obs, s1)}"))
             if last - first >= 2:
                 spans += 1
             for s in range(first, last):
